@@ -13,6 +13,8 @@
     c12.jcut  <valid> <n> (<path> <limit> <found> <index> <strlen> <rawlen>)… <hex>   | <hex result>
     c12.json  <tree>                                  | ok <tree> | err
     c12.pb    <hex>                                   | ok | err            (library: echoed, only "no panic" is judged)
+    c12.conc  <workers> <iters> <k> <inner case> ;; … <inner case>      (one shared decoder, concurrent callers)
+                                                      | <inner result> ;; … | `unstable <n> …` for a document whose calls disagreed
     c12.row   <one of the scanner cases above> E <expected field tokens>
                                                       | the inner case's result; P additionally requires
                                                         `ok <expected field tokens> B …` (fidelity on the implementation)
@@ -238,6 +240,41 @@ def fieldToks : List String → List String
   | [] => []
   | t :: ts => if t = "B" then [] else t :: fieldToks ts
 
+/-- split a token list at every `;;` -/
+def splitSemi : List String → List (List String)
+  | [] => [[]]
+  | t :: ts =>
+    match splitSemi ts with
+    | [] => [[t]]
+    | seg :: rest => if t = ";;" then [] :: seg :: rest else (t :: seg) :: rest
+
+/-- `c12.conc <workers> <iters> <k> <inner case> ;; … | <inner result> ;; …`: one shared decoder,
+    concurrent callers. Decoding is a function of (document, parameters): the model answer for every
+    document is the sequential one, whatever the other callers do. P fails when any document got a
+    result that violates its own oracle or got different results in different calls (`unstable`). -/
+def handleConc (args impl : List String) : Option (String × String) :=
+  match args with
+  | _w :: _it :: _k :: rest =>
+    let cases := splitSemi rest
+    let impls := splitSemi impl
+    let rec go : List (List String) → List (List String) → Option (List String × Bool)
+      | [], _ => some ([], true)
+      | c :: cs, is =>
+        let (i, is') := match is with
+          | i :: r => (i, r)
+          | [] => ([], [])
+        match c with
+        | icmd :: iargs =>
+          match handleBase icmd iargs i, go cs is' with
+          | some (m, p), some (ms, ok) =>
+            some (m :: ms, ok && p == "ok" && !(i.head? == some "unstable"))
+          | _, _ => none
+        | [] => none
+    match go cases impls with
+    | some (ms, ok) => some (" ;; ".intercalate ms, if ok && cases.length = impls.length then "ok" else "fail")
+    | none => none
+  | _ => none
+
 /-- `c12.row <inner case> E <expected field tokens>`: the inner case is the rendering of a
     well-formed row; besides the inner oracle, P fails unless the implementation decoded exactly
     the row's fields (`decode (render row) = row`, the statement of the `<dec>_fields` theorems,
@@ -256,6 +293,7 @@ def handle (cmd : String) (args impl : List String) : Option (String × String) 
         some (m, p')
       | none => none
     | [] => none
+  else if cmd = "c12.conc" then handleConc args impl
   else handleBase cmd args impl
 
 end FileD.DrvC12
